@@ -52,7 +52,7 @@ BENIGN = {
 
 # quantity -> validators that must exist (all of them)
 NEEDS = {
-    "shard_id": ["shard-id-is-number", "shard-ids-contiguous"],
+    "shard_id": ["shard-id-is-number", "shard-ids-contiguous", "structural:positions-follow-numeric-shard-ids"],
     "shard_count": ["shards-non-empty"],
     "pool_size": ["pool_size>0"],
     "min_pool_size": ["min_pool_size<=pool_size"],
@@ -209,6 +209,30 @@ def run(ctx):
                 if any(o.kind == "call" and o.call.name.endswith("str>::parse") for o in origins(fc, op)):
                     oks = True
         rs.check(oks, "Address.shard=parse(key)", "Address.shard is the parsed shard key (hence the contiguity obligation)", "Address.shard no longer derives from the shard key (re-triage the shard_id obligations)")
+    # positions follow numeric shard ids: the collection of shard keys that the shard loop walks is sorted by the parsed number
+    if fc:
+        ok_sort = False
+        sorts = fc.calls("re:slice::<impl \\[T\\]>::(sort_by_key|sort_unstable_by_key|sort_by_cached_key)$")
+        # the loop that builds one entry per shard: it pushes into the vectors that become databases/addresses/banlist
+        it_calls = [c for c in fc.calls("re:IntoIterator>::into_iter$") if any("alloc::string::String" in t and "Vec" in t for t in c.targs)]
+        for sc in sorts:
+            v1 = set()
+            origins(fc, sc.args[0], visited=v1)
+            key_ok = False
+            for o in origins(fc, sc.args[1]):
+                if o.kind == "agg" and o.extra.get("agg") == "closure":
+                    kb = F.body(strip_generics(o.extra["def"]))
+                    if kb and any(c.name.endswith("str>::parse") and any(re.fullmatch(r"(i|u)(8|16|32|64|128|size)", t) for t in c.targs) for c in kb.calls()):
+                        key_ok = True
+            for ic in it_calls:
+                v2 = set()
+                origins(fc, ic.args[0], visited=v2)
+                shared = {l for l in v1 & v2 if fc.varnames.get(l)}
+                if key_ok and shared and fc.dominates(sc.block, ic.block):
+                    ok_sort = True
+        V["structural:positions-follow-numeric-shard-ids"] = ok_sort
+        rs.check(ok_sort, "shard-positions=numeric-order", "the shard keys are sorted by their parsed number before the positional vectors are filled",
+                 "from_config no longer orders the shard keys numerically before filling the positional vectors: with 11+ shards the string order (\"10\" < \"2\") puts shard 10's servers in slot 2")
     # automatic_sharding_key users are entered only on the Some arm in infer
     inf = ctx.body("pgcat::query_router::QueryRouter::infer", rs)
     if inf:
